@@ -6,7 +6,7 @@ From AV.Spec Require Import WorldSpec.
 Arguments N.add : simpl never.
 Arguments N.sub : simpl never.
 Arguments N.mul : simpl never.
-From AV.Proofs Require Export WorldCore WorldSplice WorldRead.
+From AV.Proofs Require Export WorldCore WorldSplice WorldRead WorldMore.
 
 Lemma exec_refines_step c w st o r :
   cfg_wf c -> WRep c w st -> ufuse (wuw w) = None ->
@@ -18,6 +18,8 @@ Proof.
   - (* ONew *)
     cbn [admissible] in Hadm. cbn [exec].
     exact (exec_build c w st dst bk _ r HW Hfuse Hadm Hr).
+  - (* OWithCapacity *)
+    cbn [admissible] in Hadm. exact (exec_withcap c w st dst bk n r Hwf HW Hfuse Hr Hadm).
   - (* ODropVec *)
     destruct (get_a v st) as [av|] eqn:Hg; [|discriminate]. injection Hr as <-.
     destruct (wrep_get c w st v av HW Hg) as (vv & Hgv & HV).
@@ -31,11 +33,19 @@ Proof.
     + rewrite !wuw_put. exact Hf.
     + rewrite !wuw_put. exact He.
   - (* OPush *)
-    destruct (fresh_src s) eqn:Hs; [|discriminate]. cbn [admissible] in Hadm.
-    exact (exec_offer c w st a v s None Hwf HW Hfuse Hs Hadm r Hr).
+    destruct (fresh_src s) eqn:Hs.
+    + cbn [admissible] in Hadm. exact (exec_offer c w st a v s None Hwf HW Hfuse Hs Hadm r Hr).
+    + destruct a; [|discriminate]. cbn [exec].
+      destruct s; try discriminate;
+        [apply (exec_offer_wrong c w st v _ k _ r HW Hfuse (or_introl eq_refl) Hr)
+        |apply (exec_offer_wrong c w st v _ k _ r HW Hfuse (or_intror eq_refl) Hr)].
   - (* OInsert *)
-    destruct (fresh_src s) eqn:Hs; [|discriminate]. cbn [admissible] in Hadm.
-    exact (exec_offer c w st a v s (Some idx) Hwf HW Hfuse Hs Hadm r Hr).
+    destruct (fresh_src s) eqn:Hs.
+    + cbn [admissible] in Hadm. exact (exec_offer c w st a v s (Some idx) Hwf HW Hfuse Hs Hadm r Hr).
+    + destruct a; [|discriminate]. cbn [exec].
+      destruct s; try discriminate;
+        [apply (exec_offer_wrong c w st v _ k _ r HW Hfuse (or_introl eq_refl) Hr)
+        |apply (exec_offer_wrong c w st v _ k _ r HW Hfuse (or_intror eq_refl) Hr)].
   - (* OPop *)
     cbn [admissible] in Hadm.
     exact (exec_take c w st a v TPop 0 k r Hwf HW Hfuse (fun _ => eq_refl) Hadm Hr).
@@ -149,6 +159,9 @@ Proof.
     apply (exec_capacity c w st v None false r Hwf HW Hfuse Hr Hadm (shrink_to c n)).
     + discriminate.
     + intros _. right. eexists. reflexivity.
+  - (* ODownWrong *)
+    destruct (sp_take c st (unext (wuw w)) v k (match k with TPop => 0 | _ => idx end) KDrop) as [r0|] eqn:E0; [|discriminate].
+    injection Hr as <-. exact (exec_down_wrong c w st v k idx r0 Hwf HW Hfuse E0).
 Qed.
 
 (** ** One [run_step] (what the harness and the extracted model execute per script step) *)
@@ -193,7 +206,11 @@ Proof.
     try (apply sp_splice_nx in H; exact H);
     try (apply sp_look_nx in H; exact H);
     try (apply sp_take_nx in H; exact H);
-    try (destruct (fresh_src s); [apply sp_offer_nx in H; exact H|discriminate]);
+    try (destruct (fresh_src s); [apply sp_offer_nx in H; exact H|];
+         destruct a; try discriminate; destruct s; try discriminate; unfold sp_offer_wrong in H; crush H; cbn; split; lia);
+    try (destruct (resizable bk); [apply sp_new_nx in H; exact H|discriminate]);
+    try (destruct (sp_take c st nx v k (match k with TPop => 0 | _ => idx end) KDrop) as [r0|] eqn:E0; [|discriminate];
+         apply sp_take_nx in E0; injection H as <-; destruct (s_out r0 =? 0); cbn [s_nx s_out]; lia);
     crush H; cbn; split; lia.
 Qed.
 Lemma spec_nx_ge c st nx o r : spec_step c st nx o = Some r -> nx <= s_nx r.
@@ -358,6 +375,9 @@ Definition admissibleb (c : cfg) (w : world) (o : op) : bool :=
   | OShrinkToFit v | OShrinkTo v _ =>
       match get_vec v w with Some vv => c_sz c * vcap vv <=? alloc_limit | None => true end
   | OSplice _ v sb eb _ _ _ n _ _ => adm_spliceb c w v sb eb n
+  | OWithCapacity _ bk n =>
+      bk_wfb bk && (n <=? usize_max)
+      && match bk with BReloc c0 => c_sz c * N.max n c0 <=? alloc_limit | _ => c_sz c * n <=? alloc_limit end
   | _ => true
   end.
 Fixpoint Admissibleb (c : cfg) (w : world) (ops : list op) : bool :=
@@ -435,9 +455,19 @@ Proof.
   apply orb_prop in H. destruct H as [H|H]; [|right; right; left; apply N.ltb_lt; exact H].
   apply orb_prop in H. destruct H as [H|H]; [left; apply N.leb_le; exact H|right; left; apply fixedb_sound; exact H].
 Qed.
+Lemma adm_withcapb_sound c bk n :
+  bk_wfb bk && (n <=? usize_max)
+  && match bk with BReloc c0 => c_sz c * N.max n c0 <=? alloc_limit | _ => c_sz c * n <=? alloc_limit end = true ->
+  adm_withcap c bk n.
+Proof.
+  intros H. apply andb_prop in H. destruct H as [H H3]. apply andb_prop in H. destruct H as [H1 H2].
+  split; [apply bk_wfb_sound; exact H1|]. split; [apply N.leb_le; exact H2|].
+  destruct bk; apply N.leb_le; exact H3.
+Qed.
 Lemma admissibleb_sound c w o : admissibleb c w o = true -> admissible c w o.
 Proof.
   destruct o; cbn [admissibleb admissible]; intros H; try exact I;
+    try (apply adm_withcapb_sound; exact H);
     try (apply adm_spliceb_sound; exact H);
     try (apply adm_cloneb_sound; exact H);
     try (apply adm_vecb_sound; exact H); try (apply bk_wfb_sound; exact H);
@@ -482,7 +512,10 @@ Definition ex_ops : list op :=
     OPush Erased 7 SWrap; OPush Erased 7 SWrap;
     OIter IRef 7 [true; false; true; true; false]; OIterNth IMut 7 [(true, 1); (false, 0); (false, 3)];
     OIterClone ITypedRef 7 [true] [false; true; true]; ORead 0 7 1; ORead 3 7 9;
-    OProbeTypes 7 0; OSwapWrong 7 2; OSwapWrong 7 3; OPlacement ].
+    OProbeTypes 7 0; OSwapWrong 7 2; OSwapWrong 7 3; OPlacement;
+    OWithCapacity 9 BHeap 5; OWithCapacity 10 (BReloc 4) 2; OPush Erased 9 SWrap; OPush Erased 10 SWrap;
+    OPush Erased 9 (SWrong 7); OInsert Erased 9 5 (SBoxWrong 2);     (* refused before the index is looked at *)
+    ODownWrong 7 TRemove 1; ODownWrong 7 TPop 0; ODownWrong 7 TSwapRemove 4 ].
 
 Example ex_spec_defined : exists rs, spec_run ex_cfg [] 1 ex_ops = Some rs /\ length rs = length ex_ops.
 Proof. eexists. split; [vm_compute; reflexivity|reflexivity]. Qed.
@@ -504,7 +537,8 @@ Example ex_outcomes :
      (0,0,[]); (0,0,[]); (2,3,[]); (0,0,[0]);
      (0,0,[]); (0,0,[]); (0,0,[3; 1; 23; 2; 1; 34; 1; 1; 33; 0; 0; 0; 0; 0; 0; 0]); (0,0,[3; 1; 33; 1; 1; 34; 0; 0; 0; 0]);
      (0,0,[3; 1; 23; 2; 2; 1; 34; 1; 1; 33; 0; 0; 0; 0; 2; 1; 34; 1; 1; 33; 0; 0; 0; 0]); (0,0,[33; 1; 3]); (1,0,[]);
-     (0,0,[1; 0; 1; 0; 1; 3; 1; 1; 3; 1; 0; 1; 0; 1; 0]); (2,2,[]); (2,1,[]); (0,0,[0])].
+     (0,0,[1; 0; 1; 0; 1; 3; 1; 1; 3; 1; 0; 1; 0; 1; 0]); (2,2,[]); (2,1,[]); (0,0,[0]);
+     (0,0,[]); (0,0,[]); (0,0,[]); (0,0,[]); (2,2,[]); (2,2,[]); (0,0,[1; 3; 0; 0; 0]); (0,0,[1; 3; 0; 0; 0]); (2,1,[])].
 Proof. vm_compute. reflexivity. Qed.
 
 (** ** Corollaries in the vocabulary of the properties *)
